@@ -1,5 +1,7 @@
 import CfrVerif.Proofs.PresetSpec
 import CfrVerif.Props.C02
+import CfrVerif.Proofs.PresetGameRange
+import CfrVerif.Proofs.PresetGameAsm
 /-!
 # Game-level part of the discounted-preset analysis: from the solver run to per-infoset traces
 
@@ -12,6 +14,7 @@ counterfactual regrets, performance difference regrouped by infoset, the returne
 is realisation equivalent to the `t^γ`-weighted mixture of the iterates, zero-sum sandwich.)
 -/
 set_option linter.unusedSectionVars false
+set_option linter.unusedVariables false
 namespace Cfr
 
 /-- the number of actions of infoset `I` of player `me` -/
@@ -24,11 +27,13 @@ theorem preset_reduction (g : Game ℝ) (hg : GameWF g) (p : RegretParams ℝ) (
       (getInfo g (solveVanillaSingle g false p draw T none).profile).regret * weightTotal p.strat T
         ≤ ((List.range g.p1.length).map (fun I => (tr true I).clampedMax)).sum
           + ((List.range g.p2.length).map (fun I => (tr false I).clampedMax)).sum := by
-  sorry
+  refine ⟨fun me I => PG.trace g hg p hp lo hi hpay draw T me I, ?_⟩
+  rw [PG.solve_profile]
+  exact PG.reduction g hg p hp lo hi hpay draw T hT
 
 /-- the true regret never exceeds the payoff range -/
 theorem regret_le_range (g : Game ℝ) (hg : GameWF g) (lo hi : ℝ) (hpay : PayIn lo hi g.root)
-    (σ : Profile ℝ) (hσ : ProfileOK g σ) : (getInfo g σ).regret ≤ hi - lo := by
-  sorry
+    (σ : Profile ℝ) (hσ : ProfileOK g σ) : (getInfo g σ).regret ≤ hi - lo :=
+  PG.regret_le_range g hg lo hi hpay σ hσ
 
 end Cfr
